@@ -118,4 +118,12 @@ theorem parser_clause (cfg : Cfg) (chunks : List Bytes) (docs : List JV)
       ∃ H' r', conv .generify n opt H r = some (H', r') ∧ denote n H' r' = some (ofJV .gen v) :=
   ⟨by rw [parser_machines_agree, hoj], fun v _ hv n opt H r ho hd => generify_ofJV v hv n opt H r ho hd⟩
 
+/-! the hypotheses are satisfiable: `[1,{"a":null}]` as delivered by the machine, and a heap for it -/
+example : (match run ojTables {} [[91, 49, 44, 123, 34, 97, 34, 58, 110, 117, 108, 108, 125, 93]] with
+    | .ok [.arr [.int 1, .obj [(k, .null)]]] => k == [97]
+    | _ => false) = true := by decide +kernel
+example : noBig (.arr [.int 1, .obj [([97], .null)]]) = true := rfl
+example : denote 2 [.obj [("61", .null)], .arr [.int .simple 1, .obj .simple 0]] (.arr .simple 1)
+    = some (ofJV .simple (.arr [.int 1, .obj [([97], .null)]])) := by rfl
+
 end OjgVerif.C18
